@@ -411,6 +411,28 @@ def _kmer_obs(r, k):
     return sorted(out)
 
 
+def _vmode(c):
+    """how the chunks of a case are made: 0 = fresh tables, 1 = slices, 2 = integer-array index, 3 = boolean mask of ONE table
+    (un-materialised views handed straight to the streamed computation); a fixed function of the case"""
+    import zlib
+    return zlib.crc32(core.canon(c.get("chunks")).encode()) % 4
+
+
+def _split(whole, lens, mode):
+    out, pos, n = [], 0, len(whole)
+    for l in lens:
+        if mode == 1:
+            out.append(whole[pos:pos + l])
+        elif mode == 2:
+            out.append(whole[np.arange(pos, pos + l)])
+        else:
+            mk = np.zeros(n, dtype=bool)
+            mk[pos:pos + l] = True
+            out.append(whole[mk])
+        pos += l
+    return out
+
+
 def _etable(m, rows, kt=None):
     ks = [r[0] for r in rows]
     ids = [r[1] for r in rows]
@@ -488,7 +510,10 @@ def _pipeline(m, c, streamed):
     genome = bnp.Genome.from_dict(sizes)
     rows = [r for ch in c["chunks"] for r in ch]
     if streamed:
-        src = m["NpDataclassStream"]((_interval_table(m, ch) for ch in c["chunks"]), dataclass=m["Interval"])
+        vm = _vmode(c)
+        parts = [_interval_table(m, ch) for ch in c["chunks"]] if vm == 0 else \
+            _split(_interval_table(m, rows), [len(ch) for ch in c["chunks"]], vm)
+        src = m["NpDataclassStream"](iter(parts), dataclass=m["Interval"])
     else:
         src = _interval_table(m, rows)
     gi = genome.get_intervals(src)
@@ -565,7 +590,10 @@ def impl(c):
             return {"v": f(r), "mem": f(mem)}
         if op in ("count_kmers", "count_kmers1"):
             mk = lambda rows: bnp.as_encoded_array(["".join("ACGT"[x] for x in s) for s in rows], bnp.DNAEncoding)
-            st = m["BnpStream"](mk(ch) for ch in c["chunks"])
+            vm = _vmode(c)
+            parts = [mk(ch) for ch in c["chunks"]] if vm == 0 else \
+                _split(mk([s for ch in c["chunks"] for s in ch]), [len(ch) for ch in c["chunks"]], vm)
+            st = m["BnpStream"](iter(parts))
             r = m["count_kmers"](st, c["k"])
             mem = m["count_kmers"](mk([s for ch in c["chunks"] for s in ch]), c["k"])
             return {"v": _kmer_obs(r, c["k"]), "mem": _kmer_obs(mem, c["k"])}
@@ -574,13 +602,18 @@ def impl(c):
             # the wide 4-column table on small data, one key column + ids otherwise (same code path, cheaper to build)
             kt = c["kt"] if sum(len(ch) for ch in c["chunks"]) >= 8 else None
             E = m["E"] if kt is None else m[{"ragged": "Er", "str": "Es", "int": "Ei"}[kt]]
-            st = m["NpDataclassStream"]((_etable(m, ch, kt) for ch in c["chunks"]), dataclass=E)
+            vm = _vmode(c)
+            parts = [_etable(m, ch, kt) for ch in c["chunks"]] if vm == 0 else \
+                _split(_etable(m, [x for ch in c["chunks"] for x in ch], kt), [len(ch) for ch in c["chunks"]], vm)
+            st = m["NpDataclassStream"](iter(parts), dataclass=E)
             r = _groups_obs(bnp.groupby(st, col), c["kt"])
             mem = _groups_obs(bnp.groupby(_etable(m, [x for ch in c["chunks"] for x in ch], kt), col), c["kt"])
             return {"v": r, "mem": mem}
         if op in ("chunk_entries", "chunk_lines"):
             V = m["V"]
-            tabs = [V(np.array(ch, dtype=int)) for ch in c["chunks"]]
+            vm = _vmode(c)
+            tabs = [V(np.array(ch, dtype=int)) for ch in c["chunks"]] if vm == 0 else \
+                _split(V(np.array([x for ch in c["chunks"] for x in ch], dtype=int)), [len(ch) for ch in c["chunks"]], vm)
             if op == "chunk_entries":
                 out = m["chunk_entries"](m["NpDataclassStream"](iter(tabs), dataclass=V), c["n"])
             else:
@@ -796,6 +829,61 @@ def oracle(c):
                 if cur is not None:
                     out.append(cur)
             return out
+    raise ValueError(op)
+
+
+def live_cases(tier, rng):
+    """cases for the history / aliasing probe: a streamed result must still be right after a LATER streamed call"""
+    out = []
+    for _ in range(700 if tier in ("thorough", "widen") else 240):
+        n = rng.randrange(2, 9)
+        mask = rng.getrandbits(n - 1)
+        vals = [rng.randrange(0, 9) for _ in range(n)]
+        w = rng.choice(["mean", "bincount", "histogram", "count_kmers", "groupby", "chunk_entries"])
+        if w == "mean":
+            out.append({"op": "mean", "chunks": _cut(vals, mask), "scale": 1})
+        elif w == "bincount":
+            out.append({"op": "bincount", "chunks": _cut(vals, mask), "minlength": rng.choice([0, 6])})
+        elif w == "histogram":
+            out.append({"op": "histogram", "chunks": _cut(vals, mask), "edges": [0, 2, 4, 6, 8, 10], "how": rng.choice(["edges", "range"])})
+        elif w == "count_kmers":
+            seqs = [[rng.randrange(4) for _ in range(rng.choice([2, 3, 5]))] for _ in range(n)]
+            out.append({"op": "count_kmers", "chunks": _cut(seqs, mask), "k": 2})
+        elif w == "groupby":
+            ks = _keys_from_pattern(n, rng.getrandbits(n - 1))
+            kt = rng.choice(["ragged", "str", "int"])
+            out.append({"op": "groupby", "kt": kt, "fast": kt == "ragged", "chunks": _cut([[k, i] for i, k in enumerate(ks)], mask)})
+        else:
+            out.append({"op": "chunk_entries", "chunks": _cut(list(range(n)), mask), "n": rng.choice([1, 2, 3])})
+    return out
+
+
+def impl_live(c):
+    """the live result object of the streamed call and how to read it (again)"""
+    m = _mods()
+    bnp = m["bnp"]
+    op = c["op"]
+    if op == "mean":
+        st, _ = _vstream(m, c["chunks"], c["scale"])
+        return bnp.streams.mean(st), (lambda r: {"v": _fl(np.asarray(r).ravel()[0])})
+    if op == "bincount":
+        st, _ = _vstream(m, c["chunks"])
+        return bnp.streams.bincount(st, minlength=c["minlength"]), (lambda r: {"v": [int(x) for x in r]})
+    if op == "histogram":
+        st, _ = _vstream(m, c["chunks"])
+        return bnp.streams.histogram(st, **_hist_args(c)), (lambda h: {"v": {"hist": [int(x) for x in h[0]], "edges": _edges_out(h[1])}})
+    if op == "count_kmers":
+        mk = lambda rows: bnp.as_encoded_array(["".join("ACGT"[x] for x in s) for s in rows], bnp.DNAEncoding)
+        st = m["BnpStream"](mk(ch) for ch in c["chunks"])
+        return m["count_kmers"](st, c["k"]), (lambda r: {"v": _kmer_obs(r, c["k"])})
+    if op == "groupby":
+        st = m["NpDataclassStream"]((_etable(m, ch) for ch in c["chunks"]), dataclass=m["E"])
+        groups = list(bnp.groupby(st, _COL[c["kt"]]))
+        return groups, (lambda g: {"v": _groups_obs(iter(g), c["kt"])})
+    if op == "chunk_entries":
+        V = m["V"]
+        out = list(m["chunk_entries"](m["NpDataclassStream"]((V(np.array(ch, dtype=int)) for ch in c["chunks"]), dataclass=V), c["n"]))
+        return out, (lambda o: {"v": [[int(x) for x in t.val] for t in o]})
     raise ValueError(op)
 
 
